@@ -471,6 +471,9 @@ void stream_run(const Json& c, const Plan& p, Out& o) {
     double m_apri = 0, m_step = 0;
     bool stopped = false;
     bool moved_after_unlock = false, was_locked = false;
+    const uint64_t bad = c.has("bad") ? c.getu("bad") : 0;
+    Rng br(bad);
+    int refused = 0;
     for (size_t fi = 0; fi < p.flen.size(); ++fi) {
         const int L = p.flen[fi];
         const bool want = p.flock[fi] != 0;
@@ -478,6 +481,20 @@ void stream_run(const Json& c, const Plan& p, Out& o) {
             f.lock(want);
             cur = want;
             if (f.locked() != want) { o.fail(an + ":lock-flag", fmt("coeffs_locked()=%d after set_lock_coeffs(%d)", int(f.locked()), int(want))); return; }
+        }
+        if (bad && br.range(0, 2) == 0) {
+            // the caller hands over x and d of different lengths, catches the exception and carries on: nothing of that call may
+            // have reached the filter (everything below is checked against the stream of ACCEPTED frames only)
+            const int la = br.range(0, 2 * N + 3);
+            int lb = br.range(0, 2 * N + 3);
+            if (lb == la) lb = la + 1;
+            base_array<T> bx(la), bd(lb);
+            for (int i = 0; i < la; ++i) bx[i] = mkT<T>(cd(br.gauss(), br.gauss()) * std::sqrt(p.px + 1e-300));
+            for (int i = 0; i < lb; ++i) bd[i] = mkT<T>(cd(br.gauss(), br.gauss()));
+            bool threw = false;
+            try { base_array<T> by, be; f.proc(bx, bd, (fi & 1) == 0, by, be); } catch (const std::exception&) { threw = true; }
+            if (!threw) { o.label("mismatched-lengths-accepted"); o.discard = true; return; }
+            ++refused;
         }
         const base_array<T> cb = f.coeffs();
         const base_array<T> xf = frame_of<T>(p.x, k0, L), df = frame_of<T>(p.d, k0, L);
@@ -588,6 +605,7 @@ void stream_run(const Json& c, const Plan& p, Out& o) {
     if (p.alg != A_RLS) o.metric("one-step update err/tol", m_step);
     common_labels(c, p, o);
     if (moved_after_unlock) o.label("resume-after-unlock:observed");
+    if (refused) o.label("refused-calls-between-frames");
     if (stopped) o.label("stopped:non-finite values (diverged recursion)");
     if (nontrivial_rule(p)) o.nontrivial(case_key(c, p));
 }
@@ -951,6 +969,7 @@ static void stream_gen(Ctx& ctx) {
         // conventional RLS with lambda < 1 on a non-persistent input lets P grow like lambda^-k: keep lambda^-H <= 1e8 (domain: finite values)
         if (alg == A_RLS && c.geti("xcls") >= int(X_CONST) && c.geti("xcls") <= int(X_SPARSE) && c.getd("lam") < 1.0) H = std::min(H, std::max(1, int(std::log(1e8) / -std::log(c.getd("lam")))));
         c.set("H", H).set("seed", (long long)seed64());
+        if (pick(0, 4) == 0) c.set("bad", (long long)(1 + pick64(0, 1 << 30)));
         return c;
     });
 }
